@@ -79,5 +79,27 @@ if [ "$ID" = "C13" ]; then
     note "miri inconclusive: build/warm-up failed"; echo "[miri] AUX-INCONCLUSIVE warm-up failed (see $AUX/build-miri.log)"
   fi
 fi
+if [ "$ID" = "C13" ]; then
+  # ---- libFuzzer (coverage-guided extra driver): every parsing entry point on (format, text) pairs; a crash is a violation
+  ensure_fresh "$TGT-fuzz"
+  FZ="$H/fuzz"; mkdir -p "$TGT/fuzz-corpus" "$AUX/fuzz-artifacts"
+  if (cd "$FZ" && CARGO_TARGET_DIR="$TGT-fuzz" cargo +nightly fuzz build --fuzz-dir . parsers >"$AUX/build-fuzz.log" 2>&1); then
+    (cd "$FZ" && CARGO_TARGET_DIR="$TGT-fuzz" timeout 900 cargo +nightly fuzz run --fuzz-dir . parsers "$TGT/fuzz-corpus" "$FZ/seeds" -- \
+        -fork=8 -timeout=10 -max_len=200 -max_total_time="${VERIF_FUZZ_S:-240}" -artifact_prefix="$AUX/fuzz-artifacts/" -seed="$SEED" >"$AUX/fuzz.out" 2>&1)
+    last=$(grep -a 'cov:' "$AUX/fuzz.out" | tail -1 | sed 's/^#//' | cut -c1-120)
+    ncr=$(ls "$AUX/fuzz-artifacts" 2>/dev/null | grep -c 'crash-\|timeout-\|oom-')
+    echo "[fuzz] $last artifacts=$ncr"
+    if [ "$ncr" -gt 0 ]; then
+      for a in "$AUX"/fuzz-artifacts/*; do
+        rp="$HERE/replays/$ID-thorough-s$SEED-fuzz-$(basename "$a")"; cp "$a" "$rp"
+        echo "VIOLATION property=$ID replay=$rp"
+      done
+      grep -a 'panicked at' -A3 "$AUX/fuzz.out" | head -12
+      fail=1; note "fuzz: $ncr crashing inputs"
+    else note "fuzz ok: $last"; fi
+  else
+    note "fuzz inconclusive: build failed"; echo "[fuzz] AUX-INCONCLUSIVE build failed (see $AUX/build-fuzz.log)"
+  fi
+fi
 python3 "$HERE/tools/merge_aux.py" "$ID" "$AUX" || true
 exit $fail
